@@ -127,13 +127,14 @@ Record ringreq := { r_l : nat; r_r : nat; r_order : Z; r_ls : option N; r_rs : o
 Definition raise_or {A} (bad : option exn) (k : res A) : res A :=
   match bad with Some e => Err e | None => k end.
 
-Fixpoint read_index (n : nat) (ts : toks) (bad : option exn) (acc : list (option str))
-  : res (list (option str) * toks) :=
+(* result: index symbols (missing = None), remaining tokens, number actually read *)
+Fixpoint read_index (n : nat) (ts : toks) (bad : option exn) (acc : list (option str)) (nread : nat)
+  : res (list (option str) * toks * nat) :=
   match n with
-  | O => Ok (rev acc, ts)
+  | O => Ok (rev acc, ts, nread)
   | S k => match ts with
-           | (_, s) :: r => read_index k r bad (Some s :: acc)
-           | [] => raise_or bad (read_index k [] bad (None :: acc))
+           | (_, s) :: r => read_index k r bad (Some s :: acc) (S nread)
+           | [] => raise_or bad (read_index k [] bad (None :: acc) nread)
            end
   end.
 
@@ -187,12 +188,12 @@ Fixpoint derive (fuel : nat) (ts : toks) (m : dmol) (maxd : option nat) (state :
         else
           if negb (next_branch_state_pre btype state) then Err AssertionError else
           let '(binit, nstate) := next_branch_state btype state in
-          do (syms, rest2) <- read_index n rest bad [];
+          do (syms, rest2, nread) <- read_index n rest bad [] 0;
           let Q := N.to_nat (get_index_from_selfies syms) in
           do (rest3, m2, rings2, nsub) <-
              derive f rest2 m (Some (Q + 1)) binit prev rings
                     (push_attr astack (idx + aidx, sym)) 0;
-          continue rest3 m2 (Some nstate) prev rings2 (nd + (n + nsub))
+          continue rest3 m2 (Some nstate) prev rings2 (nd + (nread + nsub))
       end
     else if is_ring_like sym then
       match process_ring_symbol sym with
@@ -202,7 +203,7 @@ Fixpoint derive (fuel : nat) (ts : toks) (m : dmol) (maxd : option nat) (state :
         else
           if negb (next_ring_state_pre rtype state) then Err AssertionError else
           let '(rorder, nstate) := next_ring_state rtype state in
-          do (syms, rest2) <- read_index n rest bad [];
+          do (syms, rest2, nread) <- read_index n rest bad [] 0;
           let Q := N.to_nat (get_index_from_selfies syms) in
           match prev with
           | PNone => Err AttributeError
@@ -211,7 +212,7 @@ Fixpoint derive (fuel : nat) (ts : toks) (m : dmol) (maxd : option nat) (state :
               let lidx := p - (Q + 1) in
               if negb (lidx <? length (atoms m)) then Err IndexError else
               let rq := {| r_l := lidx; r_r := p; r_order := rorder; r_ls := ls; r_rs := rs |} in
-              continue rest2 m nstate prev (rings ++ [rq]) (nd + n)
+              continue rest2 m nstate prev (rings ++ [rq]) (nd + nread)
           end
       end
     else if is_eps_like sym then
@@ -341,7 +342,7 @@ Fixpoint write_roots (m : dmol) (rs : list nat) (log : list (nat * nat)) (base :
   | r :: rest =>
     do (evs, log2) <- write_atom (S (length (atoms m))) m r log;
     let frag := concat (map w_tok evs) in
-    do (frags, maps) <- write_roots m rest log2 (base + length frag);
+    do (frags, maps) <- write_roots m rest log2 (base + length frag + 1);   (* + 1: the '.' separator *)
     Ok (frag :: frags, maps_of evs 0 base ++ maps)
   end.
 
